@@ -13,4 +13,20 @@ OBLIGATIONS.append(Ob('C17.varint_grow_u32', H, 'h_varint_grow_u32', tier='quick
 for t in ('u8', 'u16', 'u32', 'u64', 'i32', 'float', 'double'):
     OBLIGATIONS.append(Ob('C17.scalar_%s' % t, H, 'h_scalar_%s' % t, tier='quick', unwind=10, max_alloc=32,
         bound='all bit patterns, two values back to back', covers='EncoderBuffer::Encode<T>, DecoderBuffer::Decode<T>/Peek<T>'))
+B = 'C17/bits.cc'
+for w1, w2, tier in ((7, 32, 'quick'), (1, 9, 'quick'), (8, 8, 'thorough'), (31, 1, 'thorough'), (32, 32, 'thorough'), (9, 31, 'thorough')):
+    OBLIGATIONS.append(Ob('C17.bits_rt_%d_%d' % (w1, w2), B, 'h_bits_rt', tier=tier, unwind=34, defines={'W1': w1, 'W2': w2}, max_alloc=32,
+        bound='2 bit fields of widths %d and %d with any values, with and without stored size, stream version 2.2, leading byte and trailing uint32' % (w1, w2),
+        covers='EncoderBuffer::StartBitEncoding/EncodeLeastSignificantBits32/EndBitEncoding, BitEncoder::PutBits, DecoderBuffer::StartBitDecoding/DecodeLeastSignificantBits32/EndBitDecoding, BitDecoder::GetBits'))
+OBLIGATIONS.append(Ob('C17.bits_past', B, 'h_bits_past', tier='quick', unwind=34, ub=True, flavour='nospec',
+    bound='4 symbolic bytes, symbolic length <= 4; 64+ bits read', covers='DecoderBuffer::BitDecoder::GetBit past the end'))
+OBLIGATIONS.append(Ob('C17.direct_rt_2', B, 'h_direct_rt', tier='quick', unwind=18, defines={'NF': 2}, max_alloc=24,
+    bound='2 fields of SYMBOLIC width 1..32 + 1 bit; any values', covers='DirectBitEncoder::EncodeLeastSignificantBits32/EncodeBit/EndEncoding, DirectBitDecoder::StartDecoding/DecodeLeastSignificantBits32/DecodeNextBit'))
+OBLIGATIONS.append(Ob('C17.direct_rt_3', B, 'h_direct_rt', tier='thorough', unwind=22, defines={'NF': 3}, max_alloc=24,
+    bound='3 fields of symbolic width', covers='as C17.direct_rt_2'))
+for p0, tier in [(1, 'quick'), (128, 'quick'), (255, 'quick')] + [(p, 'thorough') for p in (2, 3, 64, 127, 129, 192, 253, 254)]:
+    OBLIGATIONS.append(Ob('C17.rabs_step_p%d' % p0, B, 'h_rabs_step', tier=tier, unwind=3, defines={'P0C': p0}, backend='kissat',
+        bound='p0=%d, every normalised state x in [4096, 2^20), both bit values' % p0, covers='rabs_desc_write, rabs_desc_read, fastdiv (DRACO_ANS_DIVREM)'))
+OBLIGATIONS.append(Ob('C17.rbit_rt_2', B, 'h_rbit_rt', tier='thorough', unwind=12, defines={'NBITS': 2}, max_alloc=64,
+    bound='every 2-bit sequence', covers='RAnsBitEncoder::EncodeBit/EndEncoding (probability clamp, rabs_write, ans_write_end), RAnsBitDecoder::StartDecoding/DecodeNextBit'))
 META = {}
